@@ -8,7 +8,7 @@ import re
 from ..cfg import enum_paths
 from ..constfold import ConstEnv
 from ..loader import AnalysisError, call_attr, unparse
-from ..rulekit import flatten_const_ifs, only_return_value
+from ..rulekit import arg_of, def_value, flatten_const_ifs, local_defs, only_return_value
 from ..pyxlower import strip_casts
 from .c10 import DEF, LEG, MEM, CUT, Pyx, ob
 from ..bounds import FnBounds
@@ -899,6 +899,51 @@ def rule_mask_compare(ctx, px):
 
 
 # ---- xerial snappy framing (aiokafka.codec) ---------------------------------------------------------------------------------
+def rule_gzip_members(ctx):
+    R = "gzip-members"
+    ctx.rep.rule(R, "gzip_decode returns the WHOLE payload: a gzip stream may consist of several members (RFC 1952; producers that compress in "
+                    "chunks write them) and the v0/v1 wrapper has no inner count that would reveal a truncated message set, so the decoder reads "
+                    "through GzipFile.read() / gzip.decompress (which continue across members), not through a one-shot zlib decompress that stops "
+                    "after the first member and ignores the rest; gzip_encode writes through GzipFile and returns the buffer after close()")
+    fi = ctx.fn("aiokafka.codec.gzip_decode")
+    c = ctx.cfg(fi)
+    p0 = fi.params()[0]
+    rets = [r for r in c.nodes if r.kind == "return"]
+    ok, why = bool(rets), "no return"
+    for r in rets:
+        v = r.ast.value
+        if isinstance(v, ast.Name):
+            ds = local_defs(c, v.id)
+            v = def_value(ds[0]) if len(ds) == 1 else v
+        good = False
+        if isinstance(v, ast.Call) and unparse(v.func) == "gzip.decompress" and v.args and unparse(v.args[0]) == p0:
+            good = True
+        elif isinstance(v, ast.Call) and isinstance(v.func, ast.Attribute) and v.func.attr == "read" and not v.args and isinstance(v.func.value, ast.Name):
+            gd = local_defs(c, v.func.value.id)
+            gv = def_value(gd[0]) if len(gd) == 1 else None
+            if isinstance(gv, ast.Call) and unparse(gv.func) in ("gzip.GzipFile", "GzipFile", "gzip.open"):
+                fo = arg_of(gv, kw="fileobj") or (gv.args[0] if gv.args and unparse(gv.func) == "gzip.open" else None)
+                if isinstance(fo, ast.Name):
+                    bd = local_defs(c, fo.id)
+                    bv = def_value(bd[0]) if len(bd) == 1 else None
+                    good = isinstance(bv, ast.Call) and unparse(bv.func) in ("io.BytesIO", "BytesIO") and bv.args and unparse(bv.args[0]) == p0
+        if not good:
+            ok, why = False, f"returns `{unparse(r.ast.value)[:50]}`" + (f" = `{unparse(v)[:60]}`" if v is not r.ast.value else "")
+    ctx.ob(R, fi, fi.node, ok, f"gzip_decode {why}: not a read of the whole (possibly multi-member) gzip stream of the payload -- a one-shot decompress stops after the first "
+                               "member, the batch decodes to fewer records and the position moves past the rest", text="decode-all-members")
+    fe = ctx.fn("aiokafka.codec.gzip_encode")
+    ce = ctx.cfg(fe)
+    wr = [n for n in ce.calls(attr="write")]
+    cl = [n for n in ce.calls(attr="close")]
+    re_ = [r for r in ce.nodes if r.kind == "return"]
+    oke = len(wr) == 1 and unparse(arg_of(wr[0].ast, 0)) == fe.params()[0] and len(cl) >= 1 and len(re_) == 1 and re_[0] not in ce.reachable([wr[0]], avoid=set(cl), exc=False) \
+        and isinstance(re_[0].ast.value, ast.Call) and call_attr(re_[0].ast.value) == "getvalue"
+    if not oke:
+        # or the one-call form
+        oke = len(re_) == 1 and isinstance(re_[0].ast.value, ast.Call) and unparse(re_[0].ast.value.func) == "gzip.compress" and unparse(re_[0].ast.value.args[0]) == fe.params()[0]
+    ctx.ob(R, fe, fe.node, oke, "gzip_encode does not write the whole payload through a gzip writer and return the buffer after it was closed (trailer written)", text="encode-closed")
+
+
 def rule_xerial(ctx):
     R = "xerial-framing"
     ctx.rep.rule(R, "snappy_decode's block scan (the 16-byte xerial header, then [int32 length][block] ...): cursor and loop bound are "
@@ -1268,6 +1313,7 @@ def run(ctx):
     rule_next_offset(ctx, px)
     rule_mask_compare(ctx, px)
     rule_xerial(ctx)
+    rule_gzip_members(ctx)
     rule_size_accounting(ctx, px)
     rule_null_is_none(ctx, px)
     rep.nd("value-level round-trip for all record sequences (varint arithmetic, timestamps beyond int32 deltas, compression codecs)")
